@@ -14,7 +14,7 @@
     Nothing else is assumed about [iso]: in particular the theorems cover the transitivity shortcut of the code
     (an item is compared only with the FIRST member of each class / with one stored template per class). *)
 From Coq Require Import List NArith ZArith Bool Arith Permutation.
-From SK Require Import lib.LGraph lib.C13_Partition model.C13_Model model.C13_Trace model.C13_Opts proof.C13_Proof proof.C13_More proof.C13_Iso proof.C13_Templates proof.C13_Clusters proof.C13_Before proof.C13_Trace proof.C13_TraceExact proof.C13_Raw proof.C13_Opts.
+From SK Require Import lib.LGraph lib.C13_Partition model.C13_Model model.C13_Trace model.C13_Opts proof.C13_Proof proof.C13_More proof.C13_Iso proof.C13_Templates proof.C13_Clusters proof.C13_Before proof.C13_Trace proof.C13_TraceExact proof.C13_Raw proof.C13_Opts proof.C13_RawOrder.
 Import ListNotations.
 
 (** 1. GraphCluster.fit / iterative_cluster: every item gets exactly one class (the list of classes has the length
@@ -593,3 +593,25 @@ Theorem C13_iterative_cluster_no_fallback :
   cc_names (mix_cfg c cm MNone MObj) = [] /\ cc_edge (mix_cfg c cm MExplicit MNone) = 0%N.
 Proof. exact gc_iter_no_fallback. Qed.
 Print Assumptions C13_iterative_cluster_no_fallback.
+
+(** the order-independence clause of the property on the caller's graphs: clustering the same raw items in ANY order gives the
+    same partition -- two items share a class in one run iff they do in the other, iff their raw graphs are isomorphic on the
+    configured labels and bond attribute *)
+Theorem C13_order_independent_raw :
+  forall (c : ccfg) (mode : attr_mode) (data data' : list ritem),
+  Permutation data data' ->
+  length (cc_defs c) = length (cc_names c) ->
+  (forall x, In x data -> NoDup (node_ids (ri_graph x))) ->
+  (forall x y, In x data -> In y data -> raw_isomorphic c (ri_graph x) (ri_graph y) ->
+               gc_key mode (mk_item c x) = gc_key mode (mk_item c y)) ->
+  let classes := gc_fit (item_iso true (cc_defs c)) mode (map (mk_item c) data) in
+  let classes' := gc_fit (item_iso true (cc_defs c)) mode (map (mk_item c) data') in
+  forall i j i' j' x y,
+    nth_error data i = Some x -> nth_error data j = Some y ->
+    nth_error data' i' = Some x -> nth_error data' j' = Some y ->
+    exists ci cj ci' cj',
+      nth_error classes i = Some (Some ci) /\ nth_error classes j = Some (Some cj) /\
+      nth_error classes' i' = Some (Some ci') /\ nth_error classes' j' = Some (Some cj') /\
+      (ci = cj <-> ci' = cj') /\ (ci = cj <-> raw_isomorphic c (ri_graph x) (ri_graph y)).
+Proof. exact order_independent_raw. Qed.
+Print Assumptions C13_order_independent_raw.
